@@ -9,7 +9,9 @@
        (index tag sets, SLIMIT/SOFFSET per shard, one cursor per series, per-series call
         iterators, LIMIT pushed down per tag set),
      query/iterator.go Iterators.Merge (+ NewCallIterator re-applied after every merge, count
-       merged as sum), query/iterator.gen.go Merge/SortedMerge/Reduce iterators.
+       merged as sum), query/iterator.gen.go Merge/SortedMerge/Reduce iterators,
+     query/select.go buildCallIterator for distinct / mode / percentile / count(distinct): VarRef
+       iterators merged up to the top, one reducer per (tag set, window) there.
    The stages after the last merge (IntervalIterator, FillIterator, LimitIterator, Emitter)
    see one stream whatever the layout; they are Spec.finish. *)
 From Coq Require Import List ZArith NArith Bool.
@@ -142,7 +144,11 @@ Definition pushed (f : fn) : bool :=
   | FMean => c11_call_iterator_mean | FMin => c11_call_iterator_min
   | FMax => c11_call_iterator_max | FFirst => c11_call_iterator_first
   | FLast => c11_call_iterator_last | FSpread => c11_call_iterator_spread
-  | FMedian => c11_call_iterator_median | FRaw => false
+  | FMedian => c11_call_iterator_median
+  | FDistinct => c11_call_iterator_distinct | FMode => c11_call_iterator_mode
+  | FPercentile _ => c11_call_iterator_percentile
+  | FCountDistinct => false   (* select.go: count over the distinct iterator, never NewCallIterator *)
+  | FRaw => false
   end.
 
 Definition part := (grp * (Z * Z))%type.   (* group, partial aggregate *)
@@ -174,7 +180,13 @@ Definition layout_parts (ft : ftype) (s : stmt) (L : layout) : list part :=
 
 (* ----- the stream that reaches the post-merge stages ----- *)
 
-(* reduce-slice iterators (spread, median) at the top: all raw points of a (key, window) *)
+(* reduce iterators at the top (spread, median, mode, percentile: slice reducers; distinct:
+   DistinctReducer; count(distinct) counts the distinct iterator's points per window): they see
+   all raw points of a (key, window).  The points of a window reach them in an order that
+   depends on the layout (MergeIterator delivers input after input for spread and mode; the
+   sorted merge of the VarRef inputs of median/percentile/distinct leaves equal timestamps in
+   input order); Spec.aggs does not depend on that order (Proofs.aggs_perm), which is why the
+   canonical order of layout_raw may stand for it. *)
 Definition slices (s : stmt) (l : list elem) : list (grp * list tv) :=
   reduce_stream grp_eqb (@app tv)
     (map (fun e => ((ekey e, wstart s (etime e)), [(etime e, eval_ e)])) l).
@@ -186,10 +198,8 @@ Definition model_stream (ft : ftype) (s : stmt) (L : layout) : list relem :=
       if pushed f
       then map (fun gp => let '(st, v) := finalize ft f (snd gp) in
                           (fst (fst gp), row_time s (fst gp) st, v)) (layout_parts ft s L)
-      else flat_map (fun gl => match agg ft f (snd gl) with
-                               | Some (st, v) => [(fst (fst gl), row_time s (fst gl) st, v)]
-                               | None => []
-                               end) (slices s (layout_raw false s L))
+      else flat_map (fun gl => map (emit s (fst gl)) (aggs ft f s.(s_desc) (snd gl)))
+                    (slices s (layout_raw false s L))
   end.
 
 Definition run_layout (ft : ftype) (s : stmt) (L : layout) : result :=
